@@ -99,5 +99,41 @@ package main
 // m43-bytearray 5, m43-bytes 17, m44-bigint 13, bool 5, enc-string-7f 6, enc-bytearray1 6; the rest are
 // unchanged or capped at 20 listed).
 //
+//	seeded-c-stream-kind-drops-cached-error decode.go Stream.Kind cached path       pass         yes      6   type=Transaction|input-class=outer:long-form-short-payload|oracle=noncanonical-accepted
+//	  (independently seeded, /verif/seeded/C16c)  returns nil instead of s.kinderr   (lib/rlp+types)              type=stream-api|input-class=faulty-header|oracle=kind-not-idempotent, ...|faulty-header-op-succeeds,
+//	                                                                                                              ...|end-of-input|kind-not-idempotent, ...|end-of-input|stream-model-disagrees, ...|unpredicted-state|kind-not-idempotent
+//
+// The second seeded change was MISSED as well (quick exit 0). What excluded it: every typed decode in the check
+// went through reflection-built decoders, which act on the error of their FIRST Kind() call; the untyped walk
+// (strings.go walk) also stops at the first error. Nothing looked at the same value twice, so a Kind() that
+// forgets its cached header error was invisible; and the only repository code that does look twice
+// (Transaction.DecodeRLP: Kind() for the size cache, then Decode) was only ever fed canonical transactions and
+// short alphabet strings that are not transactions. Added in response:
+//   - streamapi.go, part (a5): every sequence of <= 4 (thorough 5) operations over {Kind, List, ListEnd, Bytes, Uint,
+//     Raw, Decode(RawValue), Bool} on a fresh NewStream / NewListStream for 978 inputs with canonical, boundary and
+//     faulty headers (4 577 040 sequences / 17.7 M operations in quick, ~4 s; 36.6 M sequences in thorough),
+//     each step against a reference model of the protocol built on recog.go header(): Kind() idempotent in kind,
+//     size and error; no operation succeeds on a faulty header; EOL / io.EOF exactly at the end; outputs of
+//     well-formed values. 94 % of the operations are predicted; the rest is deliberately left open (after a failure
+//     that consumed content, after ListEnd with a looked-at value, and the header-slack overrun below).
+//   - chainhdr.go, part (c2): for Transaction (small zero-signature, small create, 40/60 bytes of data), Log,
+//     LogForStorage (incl. legacy format), Receipt, ReceiptForStorage, BlockInfo, StateAccount, Header: every
+//     other header form of the outer list, the first inner list and the first non-empty inner string, alone, in a
+//     list, behind a canonical sibling (1 899 cases quick, 3 651 thorough): accepted => canonical and re-encoding
+//     identical; the 144 canonical controls must be accepted.
+//
+// Observation made while building the stream model (NOT reported as a violation): inside a list, Stream.Kind()
+// compares the size of the value ahead with the list limit taken BEFORE the header bytes are read
+// (decode.go Kind(): `inList, listLimit := s.listLimit()` precedes readKind). An element that overruns its list
+// by no more than its own header length (c1 c1 01: list of 1 byte holding a list header that claims 1 byte) gets no
+// error from Kind(); a string is then refused by the read (ErrElemTooLarge), but List() ENTERS such a list and the
+// parent's remaining size wraps around to ~2^64, so the parent can never be finished: every decode of such input
+// fails later (checked: no typed target accepts any of these strings, input limit still bounds allocation).
+// Same code upstream. Minimal hardening: compare against the limit after the header (`listLimit - headerLen`),
+// or re-check in List(). Counted as info_stream_element_overrun_within_header_slack.
+//
+// Regression after parts (a5)/(c2): all 27 patches exit 1 in the quick tier (enc-listend-56 needed the harness to
+// report a non-canonical instance encoding instead of stopping); the seeded-c patch twice with the same 6 signatures.
+//
 // Dropped as equivalent for the property: removing the ErrElemTooLarge test in Stream.Kind (willRead still
 // refuses the read, only the error kind changes; the repository's own tests notice the error kind).
